@@ -13,7 +13,7 @@ open Pysmi.Generated.Skeletons
 
 /-- SmiV2Lexer.t_NUMBER (pysmi/lexer/smi.py) -/
 theorem pin_lexerNumber : lexerNumber = [
-    "if", "call:abs", "if", "if", "if", "if", "raise:error.PySmiLexerError", "call:error.PySmiLexerError",
-    "return:value"] := by decide
+    "if", "call:t.value.lstrip", "raise:error.PySmiLexerError", "call:error.PySmiLexerError", "if", "call:abs", "if",
+    "if", "if", "if", "raise:error.PySmiLexerError", "call:error.PySmiLexerError", "return:value"] := by decide
 
 end Pysmi.Pins.SkelC11
